@@ -119,12 +119,53 @@ let impl_next (im:impl) : (string * (string * string) list) option =
       let (dl, rest') = ds [] rest in
       im.lines <- rest'; Some (l, dl)
 
+(* ---------- parsing of implementation result lines (for the judge) ---------- *)
+let err_of_name = function
+  | "WrongLen" -> EWrongLen | "NotAfterLast" -> ENotAfterLast | "Range" -> ERange | "Corrupt" -> ECorrupt
+  | "NoData" -> ENoData | "Exists" -> EExists | "NotFound" -> ENotFound | "Mismatch" -> EMismatch
+  | "HeaderTooLarge" -> EHeaderTooLarge | "NoHandle" -> ENoHandle | "NoFile" -> ENoFile
+  | "HandleOpen" -> EHandleOpen | _ -> EOther
+let parse_item (s:string) : line =
+  match String.index_opt s ':' with
+  | Some i -> (n_of_string (String.sub s 0 i), bytes_of_hex (String.sub s (i+1) (String.length s - i - 1)))
+  | None -> failwith "item"
+type okind = KOpened | KUnit | KLines | KNum | KBool | KRange | KLine
+(* toks = the result tokens (before the " | ") *)
+let out_of_tokens (k:okind) (toks:string list) : out =
+  match toks with
+  | ["panic"] -> ROPanic
+  | ["hang"] -> ROHang
+  | ["err"; e] -> RErr (err_of_name e)
+  | "ok" :: rest ->
+      (match k, rest with
+       | KOpened, [p; h] -> ROpened (n_of_string (snd (split_kv p)), bytes_of_hex (snd (split_kv h)))
+       | KUnit, _ -> RUnit
+       | KLines, _ :: items -> RLines (List.map parse_item items)
+       | KNum, [v] -> RNum (n_of_string v)
+       | KBool, [v] -> RBool (v = "1")
+       | KRange, ["none"] -> RRange None
+       | KRange, [a; b] -> RRange (Some (n_of_string a, n_of_string b))
+       | KLine, [it] -> RLine (parse_item it)
+       | _ -> failwith "result shape")
+  | _ -> failwith "result line"
+let split_result (l:string) : string list * (string * (int * string)) list =
+  (* "R <tokens> | name=len:hash ..." *)
+  let bar = try Str.search_forward (Str.regexp_string " | ") l 0 with Not_found -> (try Str.search_forward (Str.regexp_string " |") l 0 with Not_found -> String.length l) in
+  let res = String.sub l 2 (bar - 2) in
+  let snap = if bar + 3 <= String.length l then String.sub l (bar + 3) (String.length l - bar - 3) else "" in
+  let files = List.filter (fun x -> x <> "") (String.split_on_char ' ' snap) in
+  let pf f = let (k, v) = split_kv f in
+    match String.split_on_char ':' v with [ln; h] -> (k, (int_of_string ln, h)) | _ -> failwith "snapshot" in
+  (List.filter (fun x -> x <> "") (String.split_on_char ' ' res), List.map pf files)
+
 (* ---------- main loop ---------- *)
 let () =
   let args = Array.to_list Sys.argv |> List.tl in
-  let script = ref "" and implf = ref "" and selftest = ref false in
+  let script = ref "" and implf = ref "" and selftest = ref false and judgef = ref "" and modelf = ref "-" in
   let rec pa = function
     | "--impl" :: f :: r -> implf := f; pa r
+    | "--judge-out" :: f :: r -> judgef := f; pa r
+    | "--model-out" :: f :: r -> modelf := f; pa r
     | "--selftest" :: r -> selftest := true; pa r
     | f :: r -> script := f; pa r
     | [] -> () in
@@ -137,83 +178,156 @@ let () =
   done;
   if !selftest then (print_endline "selftest ok"; exit 0);
   let impl = if !implf = "" then None else Some (impl_load !implf) in
+  let run_model = !modelf <> "none" in
+  let moc = if !modelf = "-" || not run_model then stdout else open_out !modelf in
+  let joc = if !judgef = "" then None else Some (open_out !judgef) in
   let ic = open_in !script in
   let w = ref init_world in
   let out = Buffer.create 65536 in
-  let flush_out () = print_string (Buffer.contents out); Buffer.clear out in
-  let emit res = Buffer.add_string out ("R " ^ res ^ " | " ^ snapshot !w.w_fs ^ "\n"); if Buffer.length out > 60000 then flush_out () in
-  let do_op (o:op) : out = let (w', r) = step' !w o in w := w'; r in
-  let payload_size () : int = match step' !w OPayloadSize with
+  let flush_out () = output_string moc (Buffer.contents out); Buffer.clear out in
+  let emit res = if run_model then begin
+      Buffer.add_string out ("R " ^ res ^ " | " ^ snapshot !w.w_fs ^ "\n"); if Buffer.length out > 60000 then flush_out () end in
+  let do_op (o:op) : out = if run_model then (let (w', r) = step' !w o in w := w'; r) else RUnit in
+  (* judge state *)
+  let js = ref judge_init and jdead = ref false and opidx = ref 0 in
+  let jprint s = match joc with Some oc -> output_string oc (s ^ "\n") | None -> () in
+  let judging () = joc <> None && impl <> None in
+  (* compare the expected files with the snapshot of the implementation *)
+  let check_files (snap:(string * (int * string)) list) : string option =
+    let exp = List.map (fun (k, c) -> (string_of_bytes k, (List.length c, fnv c))) (judge_files !js) in
+    let is_part k = let n = String.length k in n >= 5 && String.sub k (n-5) 5 = ".part" in
+    let exp = List.filter (fun (k, _) -> not (is_part k)) exp and snap = List.filter (fun (k, _) -> not (is_part k)) snap in
+    let bad = ref None in
+    List.iter (fun (k, (ln, h)) -> if !bad = None then
+      match List.assoc_opt k snap with
+      | Some (ln', h') when ln = ln' && h = h' -> ()
+      | Some (ln', h') -> bad := Some (Printf.sprintf "file %s expected=%d:%s got=%d:%s" k ln h ln' h')
+      | None -> bad := Some (Printf.sprintf "file %s expected=%d:%s got=absent" k ln h)) exp;
+    List.iter (fun (k, (ln, h)) -> if !bad = None && List.assoc_opt k exp = None then
+      bad := Some (Printf.sprintf "file %s expected=absent got=%d:%s" k ln h)) snap;
+    !bad in
+  (* one abstract step; r = what the implementation answered *)
+  let jstep (o:op) (r:out) (desc:string) : unit =
+    if judging () && not !jdead then begin
+      let (js', allowed) = judge_step !js o in
+      js := js';
+      if not (ss_det js') then (jprint (Printf.sprintf "J %d undet" !opidx); jdead := true)
+      else if not (allowed r) then (jprint (Printf.sprintf "J %d FAIL result %s :: got %s" !opidx desc (string_of_out r)); jdead := true)
+    end in
+  let jfiles (snap:(string * (int * string)) list) : unit =
+    if judging () && not !jdead then
+      match check_files snap with
+      | Some msg -> jprint (Printf.sprintf "J %d FAIL %s" !opidx msg); jdead := true
+      | None -> jprint (Printf.sprintf "J %d ok" !opidx) in
+  let payload_size_model () : int = match step' !w OPayloadSize with
     | (_, RNum v) -> (match int64_of_n v with Some x -> Int64.to_int x | None -> 0)
     | _ -> 0 in
+  let payload_size_spec () : int = match !js.ss_h with Some h -> (let rec c = function O -> 0 | S k -> 1 + c k in c h.sh_p) | None -> 0 in
   (try while true do
     let l = String.trim (input_line ic) in
     if l = "" || l.[0] = '#' then () else begin
       let toks = String.split_on_char ' ' l in
       let implrec = match impl with Some im -> impl_next im | None -> None in
+      let (itoks, isnap) = match implrec with
+        | Some (r, _) when String.length r > 2 && r.[0] = 'R' -> split_result r
+        | _ -> ([], []) in
+      let have_impl = itoks <> [] in
+      (* simple op: run on the model, judge against the implementation *)
+      let simple (o:op) (k:okind) =
+        emit (string_of_out (do_op o));
+        if have_impl then (jstep o (out_of_tokens k itoks) l; jfiles isnap) in
+      incr opidx;
       match toks with
-      | ["history"; id] -> w := init_world; Buffer.add_string out ("H " ^ id ^ "\n")
+      | ["history"; id] ->
+          w := init_world; js := judge_init; jdead := false; opidx := 0;
+          if run_model then Buffer.add_string out ("H " ^ id ^ "\n"); jprint ("H " ^ id)
       | "new" :: name :: rest ->
-          let o = ONew (bytes_of_string name, n_of_string (kv rest "p"), bytes_of_hex (kv rest "hdr"),
-                        parse_caches (kv rest "caches"), parse_cb (kv rest "cb")) in
-          emit (string_of_out (do_op o))
+          simple (ONew (bytes_of_string name, n_of_string (kv rest "p"), bytes_of_hex (kv rest "hdr"),
+                        parse_caches (kv rest "caches"), parse_cb (kv rest "cb"))) KOpened
       | "open" :: name :: rest ->
           let p = kv rest "p" and h = kv rest "hdr" in
-          let o = OOpen (bytes_of_string name, (if p = "any" then None else Some (n_of_string p)),
+          simple (OOpen (bytes_of_string name, (if p = "any" then None else Some (n_of_string p)),
                          (if h = "any" then HdrAny else HdrIs (bytes_of_hex h)),
-                         parse_caches (kv rest "caches"), parse_cb (kv rest "cb")) in
-          emit (string_of_out (do_op o))
-      | ["close"] -> emit (string_of_out (do_op OClose))
-      | ["push"; ts; hex] -> emit (string_of_out (do_op (OPush (n_of_string ts, bytes_of_hex hex))))
+                         parse_caches (kv rest "caches"), parse_cb (kv rest "cb"))) KOpened
+      | ["close"] -> simple OClose KUnit
+      | ["push"; ts; hex] -> simple (OPush (n_of_string ts, bytes_of_hex hex)) KUnit
       | ["pushseq"; ts0; step; count; seed] ->
           let ts0 = Int64.of_string ("0u" ^ ts0) and step = Int64.of_string ("0u" ^ step) in
           let count = int_of_string count and seed = int_of_string seed in
-          let p = payload_size () in
-          let res = ref "" in
-          let i = ref 0 in
-          while !res = "" && !i < count do
-            (* ts0 + i*step with overflow detection (unsigned) *)
-            let ii = Int64.of_int !i in
+          let line_i p i =
+            let ii = Int64.of_int i in
             let prod_ok = (step = 0L) || (ii = 0L) || (Int64.unsigned_compare ii (Int64.unsigned_div (-1L) step) <= 0) in
-            let prod = Int64.mul ii step in
-            let sum = Int64.add ts0 prod in
-            let sum_ok = Int64.unsigned_compare sum ts0 >= 0 in
-            if not (prod_ok && sum_ok) then res := Printf.sprintf "stop %d err Other" !i
-            else begin
-              let pay = List.init p (fun j -> byte_of_int ((seed + 131 * !i + 71 * j) land 255)) in
-              match do_op (OPush (n_of_int64 sum, pay)) with
-              | RUnit -> incr i
-              | r -> res := Printf.sprintf "stop %d %s" !i (string_of_out r)
-            end
-          done;
-          emit (if !res = "" then Printf.sprintf "ok %d" count else !res)
-      | ["read_all"; lo; hi] -> emit (string_of_out (do_op (OReadAll (parse_bound lo, parse_bound hi))))
-      | ["read_first_n"; k; lo; hi] -> emit (string_of_out (do_op (OReadFirstN (n_of_string k, parse_bound lo, parse_bound hi))))
-      | ["read_n"; k; lo; hi] -> emit (string_of_out (do_op (OReadN (n_of_string k, parse_bound lo, parse_bound hi))))
-      | ["n_lines"; lo; hi] -> emit (string_of_out (do_op (ONLines (parse_bound lo, parse_bound hi))))
-      | ["last_line"] -> emit (string_of_out (do_op OLastLine))
-      | ["len"] -> emit (string_of_out (do_op OLen))
-      | ["is_empty"] -> emit (string_of_out (do_op OIsEmpty))
-      | ["range"] -> emit (string_of_out (do_op ORange))
-      | ["payload_size"] -> emit (string_of_out (do_op OPayloadSize))
-      | ["fs_trunc"; f; k] -> emit (string_of_out (do_op (OFsTrunc (file_of_spec f, n_of_string k))))
-      | ["fs_rm"; f] -> emit (string_of_out (do_op (OFsRm (file_of_spec f))))
-      | ["fs_write"; f; hex] -> emit (string_of_out (do_op (OFsWrite (file_of_spec f, bytes_of_hex hex))))
-      | ["fs_append"; f; hex] -> emit (string_of_out (do_op (OFsAppend (file_of_spec f, bytes_of_hex hex))))
+            let sum = Int64.add ts0 (Int64.mul ii step) in
+            if prod_ok && Int64.unsigned_compare sum ts0 >= 0
+            then Some (n_of_int64 sum, List.init p (fun j -> byte_of_int ((seed + 131 * i + 71 * j) land 255))) else None in
+          if run_model then begin
+            let p = payload_size_model () in
+            let res = ref "" and i = ref 0 in
+            while !res = "" && !i < count do
+              (match line_i p !i with
+               | None -> res := Printf.sprintf "stop %d err Other" !i
+               | Some (ts, pay) ->
+                   (match do_op (OPush (ts, pay)) with
+                    | RUnit -> incr i
+                    | r -> res := Printf.sprintf "stop %d %s" !i (string_of_out r)))
+            done;
+            emit (if !res = "" then Printf.sprintf "ok %d" count else !res)
+          end;
+          if have_impl then begin
+            (* the implementation accepted pushes 0..k-1 and answered `last` to push k (if any) *)
+            let (k, last) = match itoks with
+              | ["ok"; c] -> (int_of_string c, None)
+              | "stop" :: i :: rest -> (int_of_string i, Some rest)
+              | _ -> failwith "pushseq result" in
+            let p = payload_size_spec () in
+            for i = 0 to k - 1 do
+              match line_i p i with Some (ts, pay) -> jstep (OPush (ts, pay)) RUnit (Printf.sprintf "%s [push %d]" l i) | None -> ()
+            done;
+            (match last with
+             | Some rest ->
+                 (match line_i p k with
+                  | Some (ts, pay) -> jstep (OPush (ts, pay)) (out_of_tokens KUnit rest) (Printf.sprintf "%s [push %d]" l k)
+                  | None -> ())     (* timestamp overflow: not a library call *)
+             | None -> ());
+            jfiles isnap
+          end
+      | ["read_all"; lo; hi] -> simple (OReadAll (parse_bound lo, parse_bound hi)) KLines
+      | ["read_first_n"; k; lo; hi] -> simple (OReadFirstN (n_of_string k, parse_bound lo, parse_bound hi)) KLines
+      | ["read_n"; k; lo; hi] -> simple (OReadN (n_of_string k, parse_bound lo, parse_bound hi)) KLines
+      | ["n_lines"; lo; hi] -> simple (ONLines (parse_bound lo, parse_bound hi)) KNum
+      | ["last_line"] -> simple OLastLine KLine
+      | ["len"] -> simple OLen KNum
+      | ["is_empty"] -> simple OIsEmpty KBool
+      | ["range"] -> simple ORange KRange
+      | ["payload_size"] -> simple OPayloadSize KNum
+      | ["fs_trunc"; f; k] -> simple (OFsTrunc (file_of_spec f, n_of_string k)) KUnit
+      | ["fs_rm"; f] -> simple (OFsRm (file_of_spec f)) KUnit
+      | ["fs_write"; f; hex] -> simple (OFsWrite (file_of_spec f, bytes_of_hex hex)) KUnit
+      | ["fs_append"; f; hex] -> simple (OFsAppend (file_of_spec f, bytes_of_hex hex)) KUnit
       | ["fs_asset"; _; _] ->
-          (match !w.w_h, implrec with
+          let dl = match implrec with Some (r, dl) when String.length r >= 4 && String.sub r 0 4 = "R ok" -> Some dl | _ -> None in
+          (match !w.w_h, dl with
            | Some _, _ -> emit "err HandleOpen"
-           | None, Some (r, dl) when String.length r >= 4 && String.sub r 0 4 = "R ok" ->
+           | None, Some dl ->
                List.iter (fun (name, hex) -> ignore (do_op (OFsWrite (bytes_of_string name, bytes_of_hex hex)))) dl;
                emit "ok";
+               if run_model then
                List.iter (fun (k, c) -> Buffer.add_string out (Printf.sprintf "D %s %s\n" k (hex_of_bytes c)))
                  (List.sort compare (List.map (fun (k, c) -> (string_of_bytes k, c)) !w.w_fs))
-           | None, _ -> emit "err NoFile")
+           | None, None -> emit "err NoFile");
+          (match dl with
+           | Some dl when have_impl ->
+               List.iter (fun (name, hex) -> jstep (OFsWrite (bytes_of_string name, bytes_of_hex hex)) RUnit l) dl; jfiles isnap
+           | _ -> ())
       | ["dump"] ->
           emit "ok";
+          if run_model then
           List.iter (fun (k, c) -> Buffer.add_string out (Printf.sprintf "D %s %s\n" k (hex_of_bytes c)))
-            (List.sort compare (List.map (fun (k, c) -> (string_of_bytes k, c)) !w.w_fs))
+            (List.sort compare (List.map (fun (k, c) -> (string_of_bytes k, c)) !w.w_fs));
+          if have_impl then jfiles isnap
       | _ -> prerr_endline ("syntax error: " ^ l); exit 2
     end
   done with End_of_file -> ());
-  flush_out ()
+  flush_out ();
+  (match joc with Some oc -> close_out oc | None -> ());
+  if moc != stdout then close_out moc
